@@ -223,7 +223,7 @@ def check(v):
         "samples": [{"unit": u, "ops": ops} for (u, ops) in (cases[200:201] + cases[-2:])] +
                    [{"theorem": "C19_refines_std_cursor: forall U ops, 0 < U -> U <= 2^32 -> feasible sc_init ops -> ac_run U ac_init ops = std_run sc_init ops"}],
     })
-    v.assumptions += ["target x86-64, usize = 64 bits, debug profile", "std::io::Cursor<Vec<u8>> of rustc 1.95 is the specification (std_step), validated against the real one on every history",
+    v.assumptions += ["target x86-64, usize = 64 bits, dev profile (the cursor campaign runs one build)", "std::io::Cursor<Vec<u8>> of rustc 1.95 is the specification (std_step), validated against the real one on every history",
                       "histories are feasible: no write ends beyond isize::MAX", "storage address alignment is Vec<T>'s guarantee: observed, not proved"]
     if errs:
         v.violation("driver", {"kind": "machinery", "detail": errs[:5]}, no_input=True)
